@@ -95,6 +95,7 @@ func goTemplateFromConfig(ctx context.Context, name string, templateStr string) 
 type fsWallet struct {
 	conf                         Config
 	signerCache                  *ccache.Cache
+	signerCacheMux               sync.Mutex
 	signerCacheTTL               time.Duration
 	metadataKeyFileProperty      *template.Template
 	metadataPasswordFileProperty *template.Template
@@ -267,9 +268,15 @@ func (w *fsWallet) getSignerForAddr(ctx context.Context, from ethtypes.Address0x
 func (w *fsWallet) GetWalletFile(ctx context.Context, addr ethtypes.Address0xHex) (keystorev3.WalletFile, error) {
 
 	addrString := addr.String()
+	// ccache's Get() reads the expiry of an item without synchronization, while Extend() stores it atomically.
+	// Cache hits are serialized, so that concurrent signing requests for one address do not race on it.
+	w.signerCacheMux.Lock()
 	cached := w.signerCache.Get(addrString)
 	if cached != nil {
 		cached.Extend(w.signerCacheTTL)
+	}
+	w.signerCacheMux.Unlock()
+	if cached != nil {
 		return cached.Value().(keystorev3.WalletFile), nil
 	}
 
